@@ -58,9 +58,9 @@ class Workspace:
             self._write_crate(bid)
         # a buildpack directory nested inside another buildpack's directory (a composite that keeps one of
         # its members below itself): selecting by directory must pick the innermost one
-        self.crates["verif/inner"] = {"dir": os.path.join("outer", "inner"), "pkg": "bp-inner", "bins": ["bp-inner"], "main": "bp-inner", "rev": 0}
+        self.crates["verif/nested/inner"] = {"dir": os.path.join("outer", "inner"), "pkg": "bp-inner", "bins": ["bp-inner"], "main": "bp-inner", "rev": 0}
         members.append(os.path.join("outer", "inner"))
-        self._write_crate("verif/inner")
+        self._write_crate("verif/nested/inner")
         ids = list(self.crates)
         self.composites["verif/outer"] = {"dir": "outer", "deps": [("libcnb", ids[0])], "os": "linux"}
         self._write(os.path.join("outer", "buildpack.toml"), f'api = "0.10"\n\n[buildpack]\nid = "verif/outer"\nversion = "0.1.0"\n\n[[order]]\n[[order.group]]\nid = "{ids[0]}"\nversion = "0.0.1"\n')
@@ -470,7 +470,7 @@ def run(ctx):
                 ctx.cov["interrupted_runs"] = len(ks)
                 ctx.cov["fs_calls_beneath_package_dir"] = n_calls
             # (c) packaging from one buildpack's own directory
-            for b in ([rng.choice(list(ws.composites))] if ws.composites else []) + [rng.choice(list(ws.crates))] + ["verif/inner"]:
+            for b in ([rng.choice(list(ws.composites))] if ws.composites else []) + [rng.choice(list(ws.crates))] + ["verif/nested/inner"]:
                 others_before = {o: snapshot(out_dir(pkgdir, profile, o)) for o in ws.all_ids() if o not in ws.closure([b])}
                 pd = [a if a != "custom-out/here" else pkgdir for a in extra_args]
                 p = package(ws, os.path.join(ws.root, ws.dir_of(b)), pd)
